@@ -8,6 +8,11 @@ ALL = ["C%02d" % i for i in range(1, 21)]
 
 # pid -> (category, level text, level note, technique, design_ref)
 CHECKS = {
+ "C06": ("proof",
+         "Theorems over a hand-written byte-level model (suffixes for cursors) of validateStoryLine, extractAction, combineActs, combineStoryLines, the storyline/edit branches and compileV2 show that validate, merge, edit and compile equal an independently written column denotation (columns, column-wise union in clause order, one timed group per column with before/after mood steps, act end at ncols x tempo) for all strings, scripts, scene tables and tempos, by induction without bounds. The model is tied to the current source on every run by ~4,800 (thorough ~170,000, three small scopes enumerated completely) differential cases through the real parseScript, compileV2, printSteps and combineActs (plus the -n -p CLI on a sample), with the denotation as oracle on the implementation's own output.",
+         "Trusted: Coq kernel+VM, harness+hook. The regexp substitution of `edit` is a parameter of the model (generated cases use literal patterns). Index safety of the Go code and the exact printed text are covered by the correspondence only. Tabs/other white space inside clauses and negative tempos are outside the theorems' domain (still compared).",
+         "Rocq/Coq proof (induction on byte strings and clause lists: refinement to a denotation) + differential correspondence by vm_compute",
+         "DESIGN.md section 6, C06"),
  "C16": ("proof",
          "Round trip, rotation losslessness and the GC rule are proved in Coq for all entries, sequences, sizes, thresholds and clocks, about hand-written executable byte-level models of clog.go/file.go (formatter, a recogniser for the entry regexp, split/Decode with TrimSpace and time.Parse range checks; write/rotate/GC over an abstract directory). Every run ties the models to the current source by running the real Format/Decode pair, the real main and secondary loggers and the real gcOldFiles on ~1,400 (quick) / ~14,800 (thorough) generated cases; the model's output and an independent plain-meaning oracle are evaluated in Coq's VM. The stated round trip is refuted with a witness (goroutine 0 + file '12 a.go') replayed on the real code and listed as a known finding; what is proved carries the extra guards listed in Properties/C16.v, each replayed as a probe.",
          "Trusted: Coq kernel+VM, harness+hook. Assumed: time package conversions between civil fields and instants, bufio chunking (the model's split sees the whole input; tokens >= 64 KiB are outside), multi-byte runes matched by the regexp's '.', constant per-file header size (measured per run), GC right after a flush, distinct file stamps.",
